@@ -21,3 +21,6 @@ def run(tier, seed):
     if loadfail is not None:
         loadfail.extend(out, tier, seed)
     return out
+
+
+replay_file = cfgmachine.replay_file
